@@ -646,7 +646,7 @@ class Fxp():
 
         """
 
-        x = self.copy()
+        x = self.deepcopy()     # a shallow copy would share config, status and callbacks with self
         x.val = x.val.flatten(order)
         return x
 
@@ -1923,7 +1923,7 @@ class Fxp():
 
     @property
     def T(self):
-        x = self.copy()
+        x = self.deepcopy()     # a shallow copy would share config, status and callbacks with self
         x.val = x.val.T
         return x    
     
